@@ -24,11 +24,13 @@ RULE = ("case = one generated project + history (dev edits: delete top-ID statem
         "additionally a sweep of every (k, action) of one edit run of the history, each followed by the adversarial suffix. "
         "An evaluation is one simulated process; non-trivial = history in which an abnormal ending actually fired; distinct = "
         "(case, step, k, action).")
-PROBES = ["highest_id_deleted_then_run", "abnormal_then_clean_run", "kill_in_history", "signal_in_history", "ioerr_in_history",
+PROBES = ["top_of_id_range", "highest_id_deleted_then_run", "abnormal_then_clean_run", "kill_in_history", "signal_in_history", "ioerr_in_history",
           "lock_write_failed", "fresh_project_no_lock", "moved_statement", "check_run_in_history"]
 ASSUMPTIONS = ["lock file in use (use_cache true or omitted) and never removed by the developer",
                "initial lock absent or ahead of every planted ID"]
 DEADLINE = {"quick": 220, "thorough": 3300}
+
+U32 = 0xFFFFFFFF
 
 ABNORMAL = ["fail", "torn", "kill_before", "kill_after", "kill_mid", "sig_before", "sig_after"]
 
@@ -43,6 +45,9 @@ def gen_world(rng):
     wm = world.gen_world_model(rng, use_cache=rng.choice([True, None]), nfiles=rng.randrange(1, 4),
                                sizes=["tiny", "tiny", "tiny", "k8"], p_have=0.45, max_stmts=3, min_missing=1,
                                lock=rng.choice(["absent", "ahead", "ahead"]))
+    if rng.random() < 0.08:
+        # the top of the ID range: the lock is within reach of 2^32-1
+        wm["lock"] = core.lock_text(U32 - rng.randrange(0, 4))
     knobs = {"threads": rng.randrange(1, 5), "config_arg": rng.choice(["rel", "abs"])}
     return wm, knobs
 
@@ -247,7 +252,11 @@ def execute(wm0, knobs, steps, seed, ctx, rng=None):
             if not check and tool_max is not None:
                 lk = disk.get("proj/Breadlog.lock")
                 val = core.read_lock(lk["data"]) if lk and lk["t"] == "f" else None
-                if (val is None or val <= tool_max) and lock_broken_by is None:
+                # At the top of the range the counter can pass 2^32-1 (IDs consumed by a file whose update then failed
+                # count too): no u32 is greater, and "0 = none left" is the value from which no ID is handed out again.
+                # A tool that treated 0 as a start value would be caught by the behavioural form (a) and by C01.
+                exhausted_ok = (val == 0 and tool_max >= U32 - 64)
+                if (val is None or val <= tool_max) and not exhausted_ok and lock_broken_by is None:
                     # reported once per history, at the run after which the lock first fell behind; later
                     # id-reused reports are blamed on that run
                     lock_broken_by = "%s/%s/%s" % (res.ending(), fcls if (abnormal and fired) else "none",
@@ -285,6 +294,8 @@ def run_case(rng, idx, tier, ctx):
     seed = rng.getrandbits(40)
     if wm["lock"] is None:
         ctx.probes["fresh_project_no_lock"] += 1
+    elif (core.read_lock(wm["lock"]) or 0) >= U32 - 8:
+        ctx.probes["top_of_id_range"] += 1
     steps = gen_steps(rng)
     viols, explicit, info = execute(wm, knobs, steps, seed, ctx, rng)
     if info["fired"]:
